@@ -17,7 +17,7 @@ def streams(run, info, flags_list):
     for flags in flags_list:
         ins = list(corpus)
         ins += lexh.gen_exhaustive(info, 2 if tier_q else 3) if flags in (7, 0) or not tier_q else lexh.gen_exhaustive(info, 1)
-        ins += lexh.gen_random(info, run.rng, 1500 if tier_q else 20000)
+        ins += lexh.gen_random(info, run.rng, 1500 if tier_q else 60000)
         out.append((flags, ins))
     return out
 
